@@ -7,6 +7,7 @@ import Driver.C17
 import Driver.Client
 import Driver.C06
 import Driver.C10
+import Driver.C11
 import Driver.Pool
 import Driver.C18
 /-!
@@ -44,6 +45,7 @@ def dispatch (line : String) : String :=
     | "hval" => C02.hvalOp false args
     | "hvalrt" => C02.hvalOp true args
     | "hname" => C02.hnameOp args
+    | "mime" => C11.mimeOp args
     | "mbox" => C17.mboxOp args
     | "mboxlist" => C17.mboxlistOp args
     | "mboxparse" => C17.mboxparseOp args
